@@ -53,6 +53,10 @@ CASES = [
     # equal-looking named terminal (kept)
     ('start: a ";" b\na: "x"+\nb: X+\nX: "x"', {}, [('xx;xx', ('start', [('a', []), ('b', ['X:x', 'X:x'])]))]),
     ('start: b ";" a\na: "x"+\nb: X+\nX: "x"', {}, [('xx;x', ('start', [('b', ['X:x', 'X:x']), ('a', [])]))]),
+    # names that contain underscores: alternatives whose symbol names concatenate to the same text stay distinct in every engine
+    ('start: a\na: x_y z w | x y_z w\nx_y: "p"\nz: "q"\nw: "s"\nx: "p" "p"\ny_z: "q" "q"', {}, [('pqs', ('start', [('a', [('x_y', []), ('z', []), ('w', [])])])), ('ppqqs', ('start', [('a', [('x', []), ('y_z', []), ('w', [])])])),
+                                                                                                      ('ppqs', 'rejected'), ('pqqs', 'rejected')]),
+    ('start: r\nr: b c d e | b_c d e\nb: "1"\nc: "2"\nd: "3"\ne: "4"\nb_c: "5"', {}, [('1234', ('start', [('r', [('b', []), ('c', []), ('d', []), ('e', [])])])), ('534', ('start', [('r', [('b_c', []), ('d', []), ('e', [])])])), ('5234', 'rejected'), ('134', 'rejected')]),
 ]
 ENGINES = [('lalr', 'basic'), ('lalr', 'contextual'), ('earley', 'basic'), ('earley', 'dynamic'), ('earley', 'dynamic_complete'), ('cyk', 'basic')]
 for g, opts, samples in CASES:
@@ -64,14 +68,15 @@ for g, opts, samples in CASES:
                 p = Lark(g, parser=parser, lexer=lexer, **opts)
                 results[(parser, lexer)] = norm(p.parse(text))
             except Exception as e:
-                results[(parser, lexer)] = 'raised %s' % type(e).__name__
+                from lark.exceptions import UnexpectedInput as _UI, ParseError as _PE
+                results[(parser, lexer)] = 'rejected' if isinstance(e, (_UI, _PE)) else 'raised %s' % type(e).__name__
         ref = results[('lalr', 'basic')]
         if exp is not None and ref != exp:
             note('shaping', {'grammar': g, 'options': opts, 'text': text, 'engine': 'lalr/basic'}, ref, exp)
         for k, v in results.items():
             if v != ref and not (isinstance(v, str) and v.startswith('raised') and k[0] == 'cyk'):
                 note('engines-agree', {'grammar': g, 'options': opts, 'text': text, 'engine': '%s/%s' % k}, v, ref)
-            if exp is not None and v != exp and not (isinstance(v, str) and k[0] == 'cyk'):
+            if exp is not None and v != exp and not (isinstance(v, str) and v.startswith('raised') and k[0] == 'cyk'):
                 note('shaping', {'grammar': g, 'options': opts, 'text': text, 'engine': '%s/%s' % k}, v, exp)
 
 # helper-rule sharing between a rule that keeps its tokens and one that does not
